@@ -127,7 +127,7 @@ def sqlite_rows(work, datasets):
         return orig(sql, arguments, *a, **kw)
     db._exec_sql = spy
     out = {}
-    for n, (q, sl, out) in enumerate(work):
+    for n, (q, sl, _) in enumerate(work):
         expr, post = query_source(q, sl)
         del rec[:]
         try:
@@ -218,7 +218,6 @@ def run(ctx):
             k += 1
 
     stats = {p: {'untranslatable': Counter(), 'unsupported': Counter()} for p in PROVIDERS}
-    real_job = pool.submit(sqlite_rows, work, datasets)      # real SQLite engine (model validation), in parallel with TLC
     items = {p: translate_all(p, work, stats[p]) for p in PROVIDERS}
 
     def judge(p):
@@ -231,8 +230,8 @@ def run(ctx):
             out += res
         return out
     jobs = {p: pool.submit(judge, p) for p in PROVIDERS}
+    real = sqlite_rows(work, datasets)      # real SQLite engine (model validation), while the TLC processes run
     reports = {p: jobs[p].result() for p in PROVIDERS}
-    real = real_job.result()
     ctx.timing = getattr(ctx, 'timing', {})
 
     # -- validation of the SQLite instance of SqlSem against the real engine ------------------------
